@@ -4,7 +4,7 @@
    every sampled statement and not assumed. *)
 Require Import Calc.Sem.
 Require Import Calc.Base Calc.Bytecode Calc.Value Calc.FloatText Calc.Ast Calc.Resolve Calc.Compile Calc.VM
-        Calc.Session Calc.CorrSession Calc.CompileWf
+        Calc.Session Calc.CorrSession Calc.SemSession Calc.CompileWf
         Calc.ExprSem Calc.ExprAssign Calc.ExprLen Calc.ExprSession Calc.LExprSem Calc.StmtSem Calc.StmtRel Calc.StmtDef Calc.StmtMixed Calc.StmtStart.
 Open Scope Z_scope.
 
@@ -163,9 +163,20 @@ Definition covered_prefix (trees : list node) : nat :=
   | _, _ => 0
   end.
 
-(* 10^10 * (trees in the prefix covered by the session theorems)
+(* the same for the Sem-vs-VM theorem: the two states after the first tree must pass start_ok2 *)
+Definition covered_prefix2 (trees : list node) : nat :=
+  match machine_new, trees with
+  | Some mc0, t1 :: r =>
+      if start_ok2 (fst (sem_tree sem_init t1)) (fst (run_tree false mc0 t1))
+      then prefix_ok (session_names trees) r (match lambda_def t1 with Some f => [f] | None => [] end)
+      else 0
+  | _, _ => 0
+  end.
+
+(* 10^15 * (trees covered by the Sem-vs-VM session theorem) + 10^10 * (trees covered by the compiled-side session theorem)
    + 100000 * (trees that meet the premises on trees of the compiled-side theorem) + (all trees) *)
 Definition chk_fragment (l : list ginput) : Z :=
   let trees := List.concat (map g_trees l) in
+  1000000000000000 * Z.of_nat (covered_prefix2 trees) +
   10000000000 * Z.of_nat (covered_prefix trees) +
   100000 * Z.of_nat (count_fragment trees true []) + Z.of_nat (List.length trees).
